@@ -49,6 +49,11 @@ type Config struct {
 
 	// gasLimit for interpreter run
 	EVMGasLimit uint64
+
+	// NoAdminOP makes the admin precompile fail instead of calling into the node. It is set for
+	// read-only executions (contract queries), which run outside block execution on a single node
+	// and therefore must not be able to stage a validator change.
+	NoAdminOP bool
 }
 
 // Interpreter is used to run Ethereum based contracts and will utilise the
